@@ -64,9 +64,12 @@ def serCol (w : World) (H : List Nat) (q : Option Q) : Tree :=
 
 def u32? (n : Nat) : Option Nat := if n < 4294967296 then some n else none
 
-/-- zero-sized component types (harness universe: 7, 8, 9) carry no value: whatever number the input
-holds for them, the decoded component is the unit value, rendered as serial 0 -/
-def normVal (t v : Nat) : Nat := if 7 ≤ t ∧ t ≤ 9 then 0 else v
+/-- what the harness universe's component types do with a decoded number: zero-sized types (7, 8, 9)
+carry no value — whatever the input holds, the component is the unit value, rendered 0 — and the two
+4-byte types (1, 2) keep the low 32 bits (their `Deserialize`, which is user-context code, narrows the
+decoded `u64`) -/
+def normVal (t v : Nat) : Nat :=
+  if 7 ≤ t ∧ t ≤ 9 then 0 else if t = 1 ∨ t = 2 then v % 4294967296 else v
 
 /-- the documented row context: keys are component ids in `H`; a repeated id replaces the value
 (`EntityBuilder::add`), an unknown id is an error -/
